@@ -50,6 +50,7 @@ Inductive wrcase :=
          (w_k : list Z)         (* member count after each underlying Write; -1: not a member boundary *)
          (probe : list (Z * Z * Z * Z))   (* (payload length, digest a, digest b, compressed length) measured on
                                              compress/flate at this level, for blocks the writer may refuse *)
+         (failw : list Z)                 (* fault plan: indices of the underlying Write calls that are refused *)
 | HeCase (data : list Z) (pos : Z) (kind : Z)   (* 0 Size(), 1 Stat(), 2 Seek+Len, 3 none *)
          (has : bool) (err : Z).                (* what bgzf.HasEOF returned: value, error class 0 / 2 / 3 *)
 
@@ -78,7 +79,7 @@ Fixpoint chunks_eqb (a b : list (list Z)) : bool :=
 Fixpoint res_eqb (a b : list (Z * Z)) : bool :=
   match a, b with
   | [], [] => true
-  | (x1, x2) :: a', (y1, y2) :: b' => (x1 =? y1) && ((x2 =? y2) || (y2 =? -1)) && res_eqb a' b'
+  | (x1, x2) :: a', (y1, y2) :: b' => ((x1 =? y1) || (y1 =? -1)) && ((x2 =? y2) || (y2 =? -1)) && res_eqb a' b'
   | _, _ => false
   end.
 
@@ -98,13 +99,13 @@ Fixpoint count_up (i : Z) (l : list Z) : bool :=
 
 Definition wr_agree (c : wrcase) : bool :=
   match c with
-  | WrCase ops lvl wc h sched rounds res members eof api_cum w_k probe =>
+  | WrCase ops lvl wc h sched rounds res members eof api_cum w_k probe failw =>
       let script := map to_wop ops in
       let dfl := fun (_ : Z) (d : list Z) => repeat 0 (Z.to_nat (clen_of members probe d)) in
       let crc := fun _ : list Z => 0 in
       let n := Z.to_nat (pool_size wc) in
-      let st := run_conc dfl crc bgzf_wr_patch_mode bgzf_wr_patch_guard bgzf_wr_overflow_check lvl h no_fault
-                         wc script (sched ++ rr rounds n) in
+      let st := run_conc dfl crc bgzf_wr_patch_mode bgzf_wr_patch_guard bgzf_wr_overflow_check lvl h
+                         (fun k => existsb (Z.eqb k) failw) wc script (sched ++ rr rounds n) in
       let s := x_api st in
       let expect := map rebuild members ++ (if eof then [bgzf_magicBlock] else []) in
       let fuel := (length (x_out st) * 8 + length ops * 8 + 16)%nat in
@@ -113,7 +114,7 @@ Definition wr_agree (c : wrcase) : bool :=
       && res_eqb (s_res s) res
       && chunks_eqb (x_out st) expect
       && Bool.eqb (s_eof s) eof
-      && marks_ok (s_marks s) api_cum
+      && (negb (isnil failw) || marks_ok (s_marks s) api_cum)
       && count_up 1 w_k
       && (zlen w_k =? zlen (x_out st))
       && (is_some (x_err st)
